@@ -36,10 +36,11 @@ type Cell struct {
 	ShotMs    int64  `json:"shot_ms"`
 	Queue     int    `json:"queue"`
 	Bound     int    `json:"bound"`
+	Startup   string `json:"startup,omitempty"` // "" once(instances) | const: one instance every 500ms | pause: 1 instance, 1s pause, 1 instance
 }
 
 func (c Cell) Name() string {
-	return fmt.Sprintf("cli|sig=%s@%v|second=%v|inst=%d|items=%d|rps=%s|shot=%dms|queue=%d", c.Signal, c.SignalMs, c.Second, c.Instances, c.Items, c.RPS, c.ShotMs, c.Queue)
+	return fmt.Sprintf("cli|sig=%s@%v|second=%v|inst=%d|items=%d|rps=%s|shot=%dms|queue=%d|startup=%s", c.Signal, c.SignalMs, c.Second, c.Instances, c.Items, c.RPS, c.ShotMs, c.Queue, c.Startup)
 }
 
 type exitHook struct{ w *World }
@@ -84,7 +85,7 @@ func (r *run) scenario(x *vs.X) func(end, msg string) error {
 		Aggregator:      netsample.WrapAggregator(ph),
 		NewGun:          func() (core.Gun, error) { return &gun{w: w}, nil },
 		NewRPSSchedule:  rps,
-		StartupSchedule: schedule.NewOnce(int64(c.Instances)),
+		StartupSchedule: startup(c),
 		DiscardOverflow: true,
 	}}})
 	log := zap.New(zapcore.NewNopCore(), zap.WithFatalHook(exitHook{w}))
@@ -106,6 +107,16 @@ func (r *run) scenario(x *vs.X) func(end, msg string) error {
 		}
 		return nil
 	}
+}
+
+func startup(c Cell) core.Schedule {
+	switch c.Startup {
+	case "const":
+		return schedule.NewConst(2, time.Duration(c.Instances)*500*time.Millisecond)
+	case "pause":
+		return schedule.NewComposite(schedule.NewOnce(1), schedule.NewConst(0, time.Second), schedule.NewOnce(int64(c.Instances-1)))
+	}
+	return schedule.NewOnce(int64(c.Instances))
 }
 
 // fatalCore lets Fatal entries through (so that the fatal hook runs) and drops everything else.
@@ -185,6 +196,16 @@ func cells(thorough bool) []Cell {
 			}
 			out = append(out, Cell{Signal: sig, SignalMs: []int64{0, 1}, Instances: inst, Items: 3, RPS: "once5", Queue: 64, Bound: 1})
 			out = append(out, Cell{Signal: sig, SignalMs: []int64{700}, Second: true, Instances: inst, Items: -1, RPS: "const", ShotMs: 5000, Queue: 64, Bound: 1})
+		}
+	}
+	// normal end of a pool whose instances are still being started when the ammo runs out, with shots in flight
+	for _, st := range []string{"const", "pause"} {
+		for _, inst := range []int{2, 3} {
+			for _, items := range []int{1, 2, 3} {
+				for _, shot := range []int64{300, 700, 1500} {
+					out = append(out, Cell{Signal: "none", Instances: inst, Items: items, RPS: "once5", ShotMs: shot, Queue: 64, Bound: 1, Startup: st})
+				}
+			}
 		}
 	}
 	out = append(out, Cell{Signal: "none", Instances: 2, Items: 4, RPS: "once5", Queue: 64, Bound: 1})
